@@ -146,7 +146,7 @@ void checkModel(const std::string& bytes, const std::string& src, uint64_t seed)
 }
 
 struct Plan { int synSeeds; int api; };
-Plan plan() { return g_cfg.tier ? Plan{6, 1200} : Plan{1, 48}; }
+Plan plan() { return g_cfg.tier ? Plan{6, 1200} : Plan{1, 160}; }
 
 void run(size_t idx) {
 	Plan p = plan();
